@@ -188,24 +188,31 @@ theorem C17_colocated_client_no_effect (st : State) (k : Nat) :
 /-- **Re-install.**  `software_manager.install(DatabaseService[, config])` at run time either changes nothing (refused
 without a configuration while installed; the constructor raises while a live `database.db` exists), or replaces the
 instance: then NO connection of the old instance survives (every id ever issued is refused from then on,
-`C17_closed_stays_closed_run`), the password is the configured one, the session limit is the default again, the database
-file is a fresh GOOD one, and the service owns port 5432 - whatever a co-located client did to the port map. -/
-theorem C17_reinstall (s : Server) (cfg : Option (Option Nat × Bool)) :
+`C17_closed_stays_closed_run`), the password, the fixing duration and the starting health are the configured ones (UNUSED
+becomes GOOD at once when the service starts, i.e. when the node is ON; FIXING starts with the full countdown), the session
+limit is the default again, the database file is a fresh GOOD one, and the service owns port 5432 - whatever a co-located
+client did to the port map. -/
+theorem C17_reinstall (s : Server) (cfg : Option InstCfg) :
     ((s.reinstall cfg).2 ≠ .done → (s.reinstall cfg).1 = s) ∧
     ((s.reinstall cfg).2 = .done →
       s.file = none ∧ (s.installed = false ∨ cfg.isSome) ∧
       (s.reinstall cfg).1.conns = [] ∧ (∀ id, (s.reinstall cfg).1.hasConn id = false) ∧
-      (s.reinstall cfg).1.password = (match cfg with | some c => c.1 | none => none) ∧
+      (s.reinstall cfg).1.password = (cfg.getD { bk := false }).pw ∧
+      (s.reinstall cfg).1.fixDur = (cfg.getD { bk := false }).fixDur ∧
+      (s.reinstall cfg).1.health =
+        (if s.node.isOn && (cfg.getD { bk := false }).health == .unused then .good else (cfg.getD { bk := false }).health) ∧
+      ((cfg.getD { bk := false }).health = .fixing → (s.reinstall cfg).1.fixCd = (cfg.getD { bk := false }).fixDur) ∧
       (s.reinstall cfg).1.maxSessions = 100 ∧ (s.reinstall cfg).1.file = some .good ∧
-      (s.reinstall cfg).1.listening = true ∧ (s.reinstall cfg).1.health = .good ∧ (s.reinstall cfg).1.nextId = s.nextId ∧
+      (s.reinstall cfg).1.listening = true ∧ (s.reinstall cfg).1.nextId = s.nextId ∧
       (s.reinstall cfg).1.ftpc.isSome) := by
   refine ⟨(reinstall_frame s cfg).1, ?_⟩
   unfold Server.reinstall Server.listening Server.hasConn
-  cases hi : s.installed <;> cases cfg <;> cases hf : s.file <;> cases hft : s.ftpc <;> simp
+  cases hi : s.installed <;> cases cfg <;> cases hf : s.file <;> cases hft : s.ftpc <;> simp <;> intro h <;> simp [h]
 
-example : ((({ conns := [⟨0, 0⟩], nextId := 1, file := none } : Server).reinstall (some (some 2, true))).1.receive 0 (.sql (some 0) .select)).2
+example : ((({ conns := [⟨0, 0⟩], nextId := 1, file := none } : Server).reinstall (some { pw := some 2 })).1.receive 0 (.sql (some 0) .select)).2
     = some (401, none) := by decide
-example : (({} : Server).reinstall (some (none, true))).2 = .raised := by decide
+example : (({} : Server).reinstall (some {})).2 = .raised := by decide
+example : (({ file := none } : Server).reinstall (some { health := .fixing, fixDur := 3 })).1.fixCd = 3 := by decide
 example : (({} : Server).reinstall none).2 = .refused := by decide
 
 /-! ## 4. Backup / damage / restore cycles along every run
@@ -464,6 +471,7 @@ theorem step_keeps_stored (st : State) (op : Op) (x : FHealth) (h : st.bk.stored
   | folderDelete => exact h
   | admin a => exact h
   | dl a => exact h
+  | fsr db a => exact h
   | co k => simp only [step]; (repeat' split) <;> exact h
   | dm i q scan atk via =>
     simp only [step]; split
@@ -584,17 +592,493 @@ end Primaite.Database
 
 namespace Primaite.Database
 
-/-- Gen tie for the defaults a freshly installed instance gets (software.py / service.py, regenerated on every run): the
-re-installed database service's session limit and durations, and the FTP client's restart / fix durations. -/
-theorem C17_gen_fresh_instance_defaults :
-    ftpcRestartDur = Gen.Database.restartDurationDefault ∧ ftpcFixDur = Gen.Database.fixingDurationDefault ∧
-    ∀ (s : Server) (cfg : Option (Option Nat × Bool)), (s.reinstall cfg).2 = .done →
-      (s.reinstall cfg).1.maxSessions = Gen.Database.maxSessionsDefault ∧
-      (s.reinstall cfg).1.restartDur = Gen.Database.restartDurationDefault ∧
-      (s.reinstall cfg).1.fixDur = Gen.Database.fixingDurationDefault := by
-  refine ⟨by decide, by decide, ?_⟩
-  intro s cfg h
-  unfold Server.reinstall at h ⊢
-  (repeat' split) <;> simp_all <;> decide
+end Primaite.Database
+
+namespace Primaite.Database
+
+/-! ## 5. No restore by a fix completion while the service cannot act (round 4)
+
+`DatabaseService._update_fix_status` calls `restore_backup()` when the FIXING countdown ends, and `apply_timestep` calls
+`backup_database()` at timestep 1.  Both are gated by the SERVICE's `_can_perform_action()` like the direct calls: a fix that
+completes while the service is stopped / paused / disabled / restarting (or its node is not ON) makes the health GOOD but
+does NOT fetch the backup.  (Seeded change C17-d asked the FTP client instead.) -/
+
+theorem tickPower_downloads (s : Server) : s.tickPower.downloads = s.downloads ∧ s.tickPower.file = s.file ∧
+    s.tickPower.conns = s.conns := by
+  unfold Server.tickPower Server.startUp Server.shutDown
+  dsimp only
+  (repeat' split) <;> simp
+
+/-- the service's own `apply_timestep` while it cannot act: neither the timestep-1 backup nor the restore of a completing fix
+happens - for EVERY health / fix countdown / restart countdown / timestep -/
+theorem tickSvc_cannot_act (s : Server) (b : Backup) (t : Nat) (pq pr big k : Bool) (h : s.canAct = false) :
+    (s.tickSvc b t pq pr big k).2 = b ∧ (s.tickSvc b t pq pr big k).1.file = s.file ∧
+    (s.tickSvc b t pq pr big k).1.downloads = s.downloads ∧ (s.tickSvc b t pq pr big k).1.conns = s.conns ∧
+    (s.tickSvc b t pq pr big k).1.node = s.node := by
+  have hb : ∀ s' : Server, s'.canAct = false → ∀ b pq big, backupDatabase s' b pq big = (s', b, false) :=
+    fun s' h' b pq big => (C17_unavailable_backup_restore s' h' b pq true big true).1
+  have hr : ∀ s' : Server, s'.canAct = false → ∀ b pq pr k, restoreBackup s' b pq pr k = (s', false) :=
+    fun s' h' b pq pr k => (C17_unavailable_backup_restore s' h' b pq pr true k).2
+  have hfix : ∀ s' : Server, s'.canAct = false → ∀ b, (s'.tickFix b pq pr k).file = s'.file ∧
+      (s'.tickFix b pq pr k).downloads = s'.downloads ∧ (s'.tickFix b pq pr k).conns = s'.conns ∧
+      (s'.tickFix b pq pr k).node = s'.node ∧ (s'.tickFix b pq pr k).op = s'.op ∧ (s'.tickFix b pq pr k).restartCd = s'.restartCd := by
+    intro s' h' b
+    unfold Server.tickFix
+    split
+    · split
+      · have hc' : Server.canAct { s' with health := .good, fixCd := 0 } = false := h'
+        rw [hr _ hc']
+        exact ⟨rfl, rfl, rfl, rfl, rfl, rfl⟩
+      · exact ⟨rfl, rfl, rfl, rfl, rfl, rfl⟩
+    · exact ⟨rfl, rfl, rfl, rfl, rfl, rfl⟩
+  have hrst : ∀ s' : Server, s'.tickRestart.file = s'.file ∧ s'.tickRestart.downloads = s'.downloads ∧
+      s'.tickRestart.conns = s'.conns ∧ s'.tickRestart.node = s'.node := by
+    intro s'; unfold Server.tickRestart; (repeat' split) <;> exact ⟨rfl, rfl, rfl, rfl⟩
+  unfold Server.tickSvc
+  split
+  · exact ⟨rfl, rfl, rfl, rfl, rfl⟩
+  · dsimp only
+    split
+    · rw [hb s h]
+      dsimp only
+      have := hfix s h b
+      have h2 := hrst (s.tickFix b pq pr k)
+      exact ⟨rfl, by rw [h2.1, this.1], by rw [h2.2.1, this.2.1], by rw [h2.2.2.1, this.2.2.1], by rw [h2.2.2.2, this.2.2.2.1]⟩
+    · have := hfix s h b
+      have h2 := hrst (s.tickFix b pq pr k)
+      exact ⟨rfl, by rw [h2.1, this.1], by rw [h2.2.1, this.2.1], by rw [h2.2.2.1, this.2.2.1], by rw [h2.2.2.2, this.2.2.2.1]⟩
+
+/-- **A tick restores (and backs up) only if the service can act.**  For every server state - every lifecycle state,
+health, fix countdown, restart countdown, node state and countdowns - every backup host, timestep and path / saturation
+input: if, after the node's own power step of this tick, the service cannot act (not RUNNING, or the node not ON), the tick
+leaves the database file, downloads/, the connection table and the backup host's copy exactly as they were.  In particular a
+FIXING countdown that ends in such a tick does not fetch the backup. -/
+theorem C17_tick_restores_only_if_running (s : Server) (b : Backup) (t : Nat) (pq pr big k : Bool)
+    (h : s.tickPower.canAct = false) :
+    (serverTick s b t pq pr big k).2 = b ∧ (serverTick s b t pq pr big k).1.file = s.file ∧
+    (serverTick s b t pq pr big k).1.downloads = s.downloads ∧ (serverTick s b t pq pr big k).1.conns = s.conns := by
+  have hp := tickPower_downloads s
+  unfold serverTick
+  dsimp only
+  split
+  · exact ⟨rfl, hp.2.1, hp.1, hp.2.2⟩
+  · have hf := tickFtpc_frame s.tickPower
+    split
+    · have hc : s.tickPower.tickFtpc.canAct = false := by
+        unfold Server.canAct at h ⊢; rw [hf.2.2.2.2.2.2.2.1, hf.2.2.2.2.2.2.1]; exact h
+      have := tickSvc_cannot_act s.tickPower.tickFtpc b t pq pr big k hc
+      exact ⟨this.1, by rw [this.2.1, hf.2.2.1, hp.2.1], by rw [this.2.2.1, hf.2.2.2.2.2.2.2.2, hp.1],
+             by rw [this.2.2.2.1, hf.1, hp.2.2]⟩
+    · have := tickSvc_cannot_act s.tickPower b t pq pr big k h
+      have hf2 := tickFtpc_frame (s.tickPower.tickSvc b t pq pr big k).1
+      dsimp only
+      exact ⟨this.1, by rw [hf2.2.2.1, this.2.1, hp.2.1], by rw [hf2.2.2.2.2.2.2.2.2, this.2.2.1, hp.1],
+             by rw [hf2.1, this.2.2.2.1, hp.2.2]⟩
+
+/-- non-vacuity: data COMPROMISED, fix requested, service stopped before the countdown ends: the completing tick makes the
+health GOOD and leaves the file COMPROMISED (the seeded C17-d tree restored it) -/
+example :
+    let st : State := { clients := [{}] }
+    let ops : List Op := [.backup true, .connect 0, .hQuery 0 .delete, .svc .fix, .svc .stop, .tick true true true, .tick true true true]
+    (run st ops).srv.op = .stopped ∧ (run st ops).srv.health = .good ∧ (run st ops).srv.file = some .compromised ∧
+    (run st (ops ++ [.svc .start, .restore true true])).srv.file = some .good := by decide
+
+/-- a service that stays out of action by itself: PAUSED or DISABLED (never started by a boot), or STOPPED on a node that is
+not booting -/
+def Server.Halted (s : Server) : Prop :=
+  s.op = .paused ∨ s.op = .disabled ∨ (s.op = .stopped ∧ s.node.st ≠ .booting)
+
+theorem halted_cannot_act (s : Server) (h : s.Halted) : s.canAct = false := by
+  unfold Server.canAct
+  rcases h with h | h | ⟨h, _⟩ <;> simp [h]
+
+theorem node_tick_facts (n : Node) :
+    (n.tick.2.1 = true → n.st = .booting) ∧ (n.tick.2.2 = true → n.tick.1.st = .off) ∧
+    (n.tick.1.st = .booting → n.st = .booting) := by
+  unfold Node.tick
+  dsimp only
+  cases hst : n.st <;> (repeat' split) <;> simp_all
+
+theorem startUp_op (s : Server) :
+    s.startUp.node = s.node ∧ (s.op = .paused → s.startUp.op = .paused) ∧ (s.op = .disabled → s.startUp.op = .disabled) := by
+  unfold Server.startUp svcStart
+  dsimp only
+  refine ⟨by split <;> rfl, ?_, ?_⟩ <;> intro h <;> split <;> simp [h]
+
+theorem shutDown_op (s : Server) :
+    s.shutDown.node = s.node ∧ (s.op = .paused → s.shutDown.op = .paused ∨ s.shutDown.op = .stopped) ∧
+    (s.op = .disabled → s.shutDown.op = .disabled) ∧ (s.op = .stopped → s.shutDown.op = .stopped) := by
+  unfold Server.shutDown svcStop
+  dsimp only
+  refine ⟨by split <;> rfl, ?_, ?_, ?_⟩ <;> intro h <;> split <;> simp [h]
+
+theorem halted_tickPower (s : Server) (h : s.Halted) : s.tickPower.Halted := by
+  have hn := node_tick_facts s.node
+  unfold Server.Halted at h ⊢
+  unfold Server.tickPower
+  dsimp only
+  generalize hs1 : ({ s with node := s.node.tick.1 } : Server) = s1
+  have h1op : s1.op = s.op := by rw [← hs1]
+  have h1node : s1.node = s.node.tick.1 := by rw [← hs1]
+  by_cases hb : s.node.tick.2.1 = true
+  · -- the node finished booting in this tick: `start()` of every service - which starts only a STOPPED one
+    have hboot := hn.1 hb
+    simp only [hb, if_true]
+    have hsu := startUp_op s1
+    rcases h with h | h | ⟨h, h'⟩
+    · have e1 : s1.startUp.op = .paused := hsu.2.1 (by rw [h1op, h])
+      by_cases hd : s.node.tick.2.2 = true
+      · simp only [hd, if_true]
+        have hsd := shutDown_op s1.startUp
+        rcases hsd.2.1 e1 with e | e
+        · exact Or.inl e
+        · refine Or.inr (Or.inr ⟨e, ?_⟩)
+          rw [hsd.1, hsu.1, h1node, hn.2.1 hd]; decide
+      · simp only [hd, Bool.false_eq_true, if_false]; exact Or.inl e1
+    · have e1 : s1.startUp.op = .disabled := hsu.2.2 (by rw [h1op, h])
+      by_cases hd : s.node.tick.2.2 = true
+      · simp only [hd, if_true]; exact Or.inr (Or.inl ((shutDown_op s1.startUp).2.2.1 e1))
+      · simp only [hd, Bool.false_eq_true, if_false]; exact Or.inr (Or.inl e1)
+    · exact absurd hboot h'
+  · simp only [hb, Bool.false_eq_true, if_false]
+    by_cases hd : s.node.tick.2.2 = true
+    · simp only [hd, if_true]
+      have hsd := shutDown_op s1
+      have hoff : s1.shutDown.node.st ≠ .booting := by rw [hsd.1, h1node, hn.2.1 hd]; decide
+      rcases h with h | h | ⟨h, h'⟩
+      · rcases hsd.2.1 (by rw [h1op, h]) with e | e
+        · exact Or.inl e
+        · exact Or.inr (Or.inr ⟨e, hoff⟩)
+      · exact Or.inr (Or.inl (hsd.2.2.1 (by rw [h1op, h])))
+      · exact Or.inr (Or.inr ⟨hsd.2.2.2 (by rw [h1op, h]), hoff⟩)
+    · simp only [hd, Bool.false_eq_true, if_false]
+      rcases h with h | h | ⟨h, h'⟩
+      · exact Or.inl (by rw [h1op, h])
+      · exact Or.inr (Or.inl (by rw [h1op, h]))
+      · refine Or.inr (Or.inr ⟨by rw [h1op, h], ?_⟩)
+        rw [h1node]; intro hc; exact h' (hn.2.2 hc)
+
+theorem halted_keep (s s' : Server) (h : s.Halted) (hop : s'.op = s.op) (hn : s'.node = s.node) : s'.Halted := by
+  unfold Server.Halted at h ⊢; rw [hop, hn]; exact h
+
+theorem halted_serverTick (s : Server) (b : Backup) (t : Nat) (pq pr big k : Bool) (h : s.Halted) :
+    (serverTick s b t pq pr big k).1.Halted := by
+  have hp := halted_tickPower s h
+  have hsvc : ∀ s' : Server, s'.Halted → (s'.tickSvc b t pq pr big k).1.Halted := by
+    intro s' h'
+    have hc := halted_cannot_act s' h'
+    have hnode := (tickSvc_cannot_act s' b t pq pr big k hc).2.2.2.2
+    refine halted_keep s' _ h' ?_ hnode
+    -- the operating state: only a RESTARTING service changes it in its tick
+    have hb := (C17_unavailable_backup_restore s' hc b pq true big true).1
+    unfold Server.tickSvc
+    split
+    · rfl
+    · dsimp only
+      have hnr : s'.op ≠ .restarting := by
+        rcases h' with h1 | h1 | ⟨h1, _⟩ <;> rw [h1] <;> decide
+      have hfixop : ∀ x : Server, x.canAct = false → (x.tickFix b pq pr k).op = x.op := by
+        intro x hx
+        unfold Server.tickFix
+        split
+        · split
+          · have hc' : Server.canAct { x with health := .good, fixCd := 0 } = false := hx
+            rw [(C17_unavailable_backup_restore _ hc' b pq pr true k).2]
+          · rfl
+        · rfl
+      have hrs : ∀ x : Server, x.op ≠ .restarting → x.tickRestart.op = x.op := by
+        intro x hx; unfold Server.tickRestart; simp [hx]
+      split
+      · rw [hb]; dsimp only
+        rw [hrs _ (by rw [hfixop s' hc]; exact hnr), hfixop s' hc]
+      · rw [hrs _ (by rw [hfixop s' hc]; exact hnr), hfixop s' hc]
+  unfold serverTick
+  dsimp only
+  split
+  · exact hp
+  · split
+    · have hf := tickFtpc_frame s.tickPower
+      exact hsvc _ (halted_keep _ _ hp hf.2.2.2.2.2.2.1 hf.2.2.2.2.2.2.2.1)
+    · have hf := tickFtpc_frame (s.tickPower.tickSvc b t pq pr big k).1
+      exact halted_keep _ _ (hsvc _ hp) hf.2.2.2.2.2.2.1 hf.2.2.2.2.2.2.2.1
+
+/-- the operations by which time passes and clients / red applications / backup / restore calls arrive - everything but an
+administrator starting the service again -/
+def Op.isTrafficOrTick : Op → Bool
+  | .tick _ _ _ => true
+  | op => op.isTraffic
+
+/-- **While the service is halted, nobody restores - not even a completing fix.**  From any state in which the database
+service is PAUSED, DISABLED, or STOPPED on a node that is not booting, along EVERY sequence of ticks (any number, with any
+fix / restart countdown running out in any of them), connects, queries, disconnects, executes, uninstalls, red-application
+attacks, `backup_database()` and `restore_backup()` calls: the service stays halted, and the database file, downloads/ and
+the connection table are exactly what they were.  (Only the health may change: a fix completes to GOOD.) -/
+theorem C17_halted_service_never_restores_run (st : State) (ops : List Op)
+    (hops : ∀ op ∈ ops, op.isTrafficOrTick = true) (h : st.srv.Halted) :
+    (run st ops).srv.Halted ∧ (run st ops).srv.file = st.srv.file ∧ (run st ops).srv.downloads = st.srv.downloads ∧
+    (run st ops).srv.conns = st.srv.conns := by
+  have := (run_reach st ops).invariant
+    (I := fun s => s.Halted ∧ s.file = st.srv.file ∧ s.downloads = st.srv.downloads ∧ s.conns = st.srv.conns)
+    (fun s e ⟨op, hm, ha⟩ hs => by
+      have hop := hops op hm
+      by_cases htick : ∃ g d k, op = .tick g d k
+      · obtain ⟨g, d, k, rfl⟩ := htick
+        obtain ⟨b, t, pq, pr, big, kk, rfl⟩ := ha
+        have hh := halted_serverTick s b t pq pr big kk hs.1
+        have hc : s.tickPower.canAct = false := halted_cannot_act _ (halted_tickPower s hs.1)
+        have hk := C17_tick_restores_only_if_running s b t pq pr big kk hc
+        exact ⟨hh, by rw [show (SrvEv.tick b t pq pr big kk).apply s = (serverTick s b t pq pr big kk).1 from rfl, hk.2.1]; exact hs.2.1,
+               by rw [show (SrvEv.tick b t pq pr big kk).apply s = (serverTick s b t pq pr big kk).1 from rfl, hk.2.2.1]; exact hs.2.2.1,
+               by rw [show (SrvEv.tick b t pq pr big kk).apply s = (serverTick s b t pq pr big kk).1 from rfl, hk.2.2.2]; exact hs.2.2.2⟩
+      · have htr : op.isTraffic = true := by
+          cases op <;> first | exact hop | (exfalso; exact htick ⟨_, _, _, rfl⟩)
+        have := apply_unavailable s e (halted_cannot_act s hs.1) (traffic_events op htr e ha)
+        rw [this]; exact hs)
+    ⟨h, rfl, rfl, rfl⟩
+  exact this
+
+example : ({ op := .stopped } : Server).Halted := Or.inr (Or.inr ⟨rfl, by decide⟩)
+
+end Primaite.Database
+
+namespace Primaite.Database
+
+/-! ## 6. What happens to the stored backup when it is deleted, or when the service is re-installed (round 4)
+
+`C17_restore_roundtrip_run` excludes two operations by hypothesis; this is what they do. -/
+
+/-- no copy stored for the current instance ⇒ a restore cannot succeed (whatever else is true of the state) -/
+theorem C17_restore_without_backup (st : State) (d k : Bool) (h : st.bk.stored = none) :
+    (step st (.restore d k)).2.res ≠ some true ∧ (step st (.restore d k)).1.srv.file = st.srv.file ∧
+    (step st (.restore d k)).1.srv.health = st.srv.health := by
+  simp only [step]
+  split
+  · exact ⟨by simp, rfl, rfl⟩
+  · dsimp only
+    have hf : (restoreBackup st.srv st.bk st.ftpReq (st.ftpResp && d) k).2 = false := by
+      cases hr : (restoreBackup st.srv st.bk st.ftpReq (st.ftpResp && d) k).2 with
+      | false => rfl
+      | true =>
+        obtain ⟨x, hx, _⟩ := C17_restore_result _ _ _ _ _ hr
+        rw [h] at hx; cases hx
+    have hc := (C17_failed_restore_changes_nothing _ _ _ _ _ hf).1
+    refine ⟨by rw [hf]; simp, ?_, ?_⟩ <;> rw [hc]
+
+/-- **Deleting the copy on the backup host** removes exactly the current instance's copy (orphans of earlier instances and
+everything on the database host are untouched): from then on no restore succeeds (`C17_restore_without_backup`,
+`C17_no_backup_stays_none_run`) until a NEW backup is taken - which stores the health the file has THEN
+(`C17_backup_stores`), so a backup taken after the damage restores to damaged data. -/
+theorem C17_backup_deleted (st : State) :
+    (step st .bkDelete).1.bk.stored = none ∧ (step st .bkDelete).1.bk.orphans = st.bk.orphans ∧
+    (step st .bkDelete).1.srv = st.srv ∧ ((step st .bkDelete).2.res = some true ↔ st.bk.stored.isSome) := by
+  simp only [step]
+  cases h : st.bk.stored <;> simp [h]
+
+/-- **Re-installing the service orphans its backup.**  A re-install that goes through leaves the old instance's copy on the
+backup host where it was - under the OLD uuid, as an orphan that nothing reads any more - and the new instance has no
+backup: a restore fails until the new instance has taken its own. A refused or raising re-install changes nothing. -/
+theorem C17_reinstall_orphans_backup (st : State) (cfg : Option InstCfg) :
+    ((step st (.svcInstall cfg)).2.res = some true →
+      (step st (.svcInstall cfg)).1.bk.stored = none ∧
+      (step st (.svcInstall cfg)).1.bk.orphans = st.bk.orphans ++ st.bk.stored.toList ∧
+      ∀ d k, (step (step st (.svcInstall cfg)).1 (.restore d k)).2.res ≠ some true) ∧
+    ((step st (.svcInstall cfg)).2.res ≠ some true → (step st (.svcInstall cfg)).1 = st) := by
+  have key : ∀ st' : State, st'.bk.stored = none → ∀ d k, (step st' (.restore d k)).2.res ≠ some true :=
+    fun st' h d k => (C17_restore_without_backup st' d k h).1
+  constructor
+  · intro h
+    have hst : (step st (.svcInstall cfg)).1.bk.stored = none ∧
+        (step st (.svcInstall cfg)).1.bk.orphans = st.bk.orphans ++ st.bk.stored.toList := by
+      simp only [step] at h ⊢
+      split at h <;> simp_all
+    exact ⟨hst.1, hst.2, key _ hst.1⟩
+  · intro h
+    simp only [step] at h ⊢
+    split at h <;> simp_all
+
+/-- orphans are never read: the outcome of backup and restore does not depend on them -/
+theorem C17_orphans_irrelevant (s : Server) (b : Backup) (o : List FHealth) (pq pr k big : Bool) :
+    restoreBackup s { b with orphans := o } pq pr k = restoreBackup s b pq pr k ∧
+    (backupDatabase s { b with orphans := o } pq big).2.2 = (backupDatabase s b pq big).2.2 ∧
+    (backupDatabase s { b with orphans := o } pq big).1 = (backupDatabase s b pq big).1 := by
+  refine ⟨?_, ?_, ?_⟩
+  · rw [restoreBackup_closed, restoreBackup_closed]; rfl
+  · have e : Backup.serves { b with orphans := o } = b.serves := rfl
+    unfold backupDatabase ftpSendFile
+    simp only [e]
+    cases hc : s.canAct <;> cases hbc : s.backupConfigured <;> cases hft : s.ftpc <;> cases hf : s.file <;> simp
+    cases big <;> cases hs : b.stored <;> cases hq : s.ftpConn <;> cases ha : s.ftpcAct <;> cases pq <;> cases hbs : b.serves <;> simp
+  · have e : Backup.serves { b with orphans := o } = b.serves := rfl
+    unfold backupDatabase ftpSendFile
+    simp only [e]
+    cases hc : s.canAct <;> cases hbc : s.backupConfigured <;> cases hft : s.ftpc <;> cases hf : s.file <;> simp
+    cases big <;> cases hs : b.stored <;> cases hq : s.ftpConn <;> cases ha : s.ftpcAct <;> cases pq <;> cases hbs : b.serves <;> simp
+
+/-- the operations that can put a copy on the backup host: an explicit backup, a tick (the automatic backup at timestep 1) -/
+def Op.mayStore : Op → Bool
+  | .backup _ => true
+  | .tick _ _ _ => true
+  | _ => false
+
+theorem step_keeps_none (st : State) (op : Op) (h : st.bk.stored = none) (hop : op.mayStore = false) :
+    (step st op).1.bk.stored = none := by
+  cases op with
+  | backup big => simp [Op.mayStore] at hop
+  | tick big d k => simp [Op.mayStore] at hop
+  | bkDelete => simp only [step]; rw [h]; exact h
+  | svcInstall cfg => simp only [step]; split <;> first | rfl | exact h
+  | connect i => show (st.getNewConnection i).1.bk.stored = _; rw [getNewConnection_bk]; exact h
+  | rawQuery i cid q => simp only [step]; split <;> simp [rawQuery_bk, h]
+  | rawDisconnect i cid => simp only [step]; split <;> simp [send_bk, h]
+  | rawJunk i k => simp only [step]; split <;> simp [send_bk, h]
+  | hQuery hd q => simp only [step]; split <;> simp [handleQuery_bk, h]
+  | hDisconnect hd => simp only [step]; split <;> simp [handleDisconnect_bk, h]
+  | nConnect i => simp only [step]; split <;> simp [nativeConnect_bk, h]
+  | nQuery i q => simp only [step]; split <;> simp [nativeQuery_bk, h]
+  | nDisconnect i => simp only [step]; split <;> simp [nativeDisconnect_bk, h]
+  | execute i =>
+    simp only [step]; split
+    · exact h
+    · split
+      · exact h
+      · simp [execute_bk, h]
+  | uninstall i => show (st.uninstall i).1.bk.stored = _; rw [uninstall_bk]; exact h
+  | install i =>
+    show (st.install i).bk.stored = _
+    unfold State.install; split
+    · exact h
+    · split <;> exact h
+  | appRun i => simp only [step]; (repeat' split) <;> exact h
+  | appClose i => simp only [step]; (repeat' split) <;> exact h
+  | clientPw i pw => simp only [step]; (repeat' split) <;> exact h
+  | ransom i q => show (st.ransom i q).1.bk.stored = _; rw [ransom_bk]; exact h
+  | svc r => exact h
+  | setPw pw => exact h
+  | restore d k => simp only [step]; split <;> exact h
+  | folderDelete => exact h
+  | admin a => exact h
+  | dl a => exact h
+  | fsr db a => exact h
+  | co k => simp only [step]; (repeat' split) <;> exact h
+  | dm i q scan atk via =>
+    simp only [step]; split
+    · exact h
+    · split
+      · exact h
+      · split
+        · exact h
+        · simp [dmAttack_bk, h]
+  | ransomReq i q =>
+    simp only [step]; split
+    · exact h
+    · split
+      · exact h
+      · simp [ransom_bk, h]
+  | fileDelete => exact h
+  | fileCorrupt => exact h
+  | fileRepair => exact h
+  | power who on =>
+    simp only [step]
+    (repeat' split) <;> first | exact h | simp [h]
+  | ftps b => simp only [step]; (repeat' split) <;> exact h
+  | block w on => simp only [step]; (repeat' split) <;> exact h
+
+/-- **No backup, no restore - along every run.**  Once the backup host holds no copy for the current instance (it was
+deleted there, the service was re-installed, or none was ever taken), then along EVERY sequence of operations that contains
+neither an explicit backup nor a tick, it holds none, and every restore fails leaving the file as it is. -/
+theorem C17_no_backup_stays_none_run (st : State) (ops : List Op) (h : st.bk.stored = none)
+    (hops : ∀ op ∈ ops, op.mayStore = false) :
+    (run st ops).bk.stored = none ∧
+    ∀ d k, (step (run st ops) (.restore d k)).2.res ≠ some true ∧
+      (step (run st ops) (.restore d k)).1.srv.file = (run st ops).srv.file := by
+  have hn : (run st ops).bk.stored = none := by
+    induction ops generalizing st with
+    | nil => exact h
+    | cons o os ih =>
+      unfold run
+      exact ih _ (step_keeps_none st o h (hops o List.mem_cons_self)) (fun op hm => hops op (List.mem_cons_of_mem _ hm))
+  exact ⟨hn, fun d k => ⟨(C17_restore_without_backup _ d k hn).1, (C17_restore_without_backup _ d k hn).2.1⟩⟩
+
+/-- non-vacuity: backup GOOD, DELETE, the copy deleted on the backup host: restore fails; a new backup stores the COMPROMISED
+data, and the restore that then succeeds brings back compromised data -/
+example :
+    let st : State := { clients := [{}] }
+    let ops : List Op := [.backup true, .connect 0, .hQuery 0 .delete, .bkDelete]
+    (run st ops).bk.stored = none ∧ (step (run st ops) (.restore true true)).2.res = some false ∧
+    (run st (ops ++ [.backup true])).bk.stored = some .compromised ∧
+    (run st (ops ++ [.backup true, .restore true true])).srv.file = some .compromised := by decide
+
+end Primaite.Database
+
+namespace Primaite.Database
+
+/-! ## 7. File-system requests on database/ and downloads/, the FTP client's health (round 4) -/
+
+/-- **File-system requests** (`['file_system', …]` on the database host: corrupt / repair / restore / scan / delete of
+`database.db`, restore of a deleted copy, corrupt / repair / delete of the folder) on `database/` or `downloads/` change
+nothing but that folder's live file, its deleted copies and its existence - not the service, its table, its health, the
+FTP client; a request on `downloads/` never touches the database file; all of them need the node ON. What they leave behind
+is covered by the restore theorems for EVERY state: a restore that succeeds yields the backup
+(`C17_restore_roundtrip_run` allows any of these requests between backup and restore), one without a path fails. -/
+theorem C17_fs_requests (s : Server) (db : Bool) (a : FsAct) :
+    (s.fsr db a).1 = { s with file := (s.fsr db a).1.file, folder := (s.fsr db a).1.folder, fileDeleted := (s.fsr db a).1.fileDeleted,
+                              downloads := (s.fsr db a).1.downloads, dlFolder := (s.fsr db a).1.dlFolder,
+                              dlDeleted := (s.fsr db a).1.dlDeleted } ∧
+    (db = false → (s.fsr db a).1.file = s.file ∧ (s.fsr db a).1.fileDeleted = s.fileDeleted) ∧
+    (db = true → (s.fsr db a).1.downloads = s.downloads ∧ (s.fsr db a).1.dlDeleted = s.dlDeleted) ∧
+    (s.node.isOn = false → s.fsr db a = (s, none)) := by
+  refine ⟨(fsr_frame s db a).1, ?_, ?_, ?_⟩
+  · intro h; subst h; unfold Server.fsr; split <;> exact ⟨rfl, rfl⟩
+  · intro h; subst h; unfold Server.fsr; split <;> exact ⟨rfl, rfl⟩
+  · intro h; unfold Server.fsr; simp [h]
+
+/-- `restore file`: a live file is restored in place (CORRUPT → GOOD, anything else kept); with no live file the OLDEST
+deleted copy comes back with the health it was deleted with - so un-deleting a COMPROMISED database file yields
+COMPROMISED data again (and a backup taken then stores exactly that, `C17_backup_stores`). -/
+theorem C17_fs_restore_file (f : Fold) :
+    (f.present = false → f.act .fundelete = (f, some false)) ∧
+    (f.present = true → ∀ h, f.live = some h →
+        f.act .fundelete = ({ f with live := some (if h = .corrupt then .good else h) }, some true)) ∧
+    (f.present = true → f.live = none → ∀ h rest, f.deleted = h :: rest →
+        f.act .fundelete = ({ f with live := some h, deleted := rest }, some true)) ∧
+    (f.present = true → f.live = none → f.deleted = [] → f.act .fundelete = (f, some false)) := by
+  unfold Fold.act
+  refine ⟨?_, ?_, ?_, ?_⟩
+  · intro h; simp [h]
+  · intro hp h hl; simp [hp, hl]
+  · intro hp hl h rest hd; simp [hp, hl, hd]
+  · intro hp hl hd; simp [hp, hl, hd]
+
+example :
+    let st : State := { clients := [{}] }
+    let ops : List Op := [.backup true, .connect 0, .hQuery 0 .delete, .fsr true .fdelete, .restore true true,
+                          .fsr true .fdelete, .fsr true .fundelete]
+    (run st ops).srv.file = some .compromised ∧ (run st ops).srv.fileDeleted = [.good] := by decide
+
+/-- **The FTP client's health does not matter** (`compromise` / `fix` requests on it): backup and restore give the same
+result whatever it is - only its operating state counts (`C17_ftp_client_needed`). -/
+theorem C17_ftpc_health_irrelevant (s : Server) (b : Backup) (pq pr k big : Bool) (c : Bool) (fx : Option Nat) :
+    (restoreBackup { s with ftpcComp := c, ftpcFix := fx } b pq pr k).2 = (restoreBackup s b pq pr k).2 ∧
+    (restoreBackup { s with ftpcComp := c, ftpcFix := fx } b pq pr k).1.file = (restoreBackup s b pq pr k).1.file ∧
+    (backupDatabase { s with ftpcComp := c, ftpcFix := fx } b pq big).2 = (backupDatabase s b pq big).2 := by
+  have e1 : Server.canAct { s with ftpcComp := c, ftpcFix := fx } = s.canAct := rfl
+  have e2 : Server.ftpcAct { s with ftpcComp := c, ftpcFix := fx } = s.ftpcAct := rfl
+  refine ⟨?_, ?_, ?_⟩
+  · rw [restoreBackup_closed, restoreBackup_closed]; simp only [e1, e2]
+    cases hg : (!s.canAct || !s.backupConfigured || s.ftpc.isNone)
+    · cases hs : b.stored with
+      | none => simp
+      | some bh => cases hx : (pq && b.serves && k && pr && s.ftpcAct) <;> simp
+    · simp
+  · rw [restoreBackup_closed, restoreBackup_closed]; simp only [e1, e2]
+    cases hg : (!s.canAct || !s.backupConfigured || s.ftpc.isNone)
+    · cases hs : b.stored with
+      | none => simp
+      | some bh => cases hx : (pq && b.serves && k && pr && s.ftpcAct) <;> simp
+    · simp
+  · unfold backupDatabase ftpSendFile
+    simp only [e1, e2]
+    cases hc : s.canAct <;> cases hbc : s.backupConfigured <;> cases hft : s.ftpc <;> cases hf : s.file <;> simp
+    cases big <;> cases hs : b.stored <;> cases hq : s.ftpConn <;> cases ha : s.ftpcAct <;> cases pq <;> cases hbs : b.serves <;> simp
 
 end Primaite.Database
